@@ -629,6 +629,7 @@ func runParent(id, propID, tier string, seed uint64) (Evidence, int) {
 		V     Violation
 	}
 	var viols []vrec
+	extraUnits := 0
 	for _, r := range all {
 		for k, v := range r.Counters {
 			if strings.HasPrefix(k, "max:") {
@@ -641,6 +642,10 @@ func runParent(id, propID, tier string, seed uint64) (Evidence, int) {
 		}
 		for _, fp := range r.Fingerprints {
 			fps[fp] = true
+		}
+		// a case may evaluate several units (and fingerprint each): evaluations counts units, never fewer than cases
+		if len(r.Fingerprints) > 1 {
+			extraUnits += len(r.Fingerprints) - 1
 		}
 		if r.Sample != nil && len(samples) < 4 {
 			samples = append(samples, r.Sample)
@@ -765,7 +770,8 @@ func runParent(id, propID, tier string, seed uint64) (Evidence, int) {
 	}
 
 	cov := map[string]interface{}{
-		"evaluations":         evaluated,
+		"evaluations":         evaluated + extraUnits,
+		"cases":               evaluated,
 		"distinct_nontrivial": len(fps),
 		"rule":                chk.Rule,
 		"samples":             samples,
